@@ -3,13 +3,20 @@ package lifecycle
 
 import (
 	"context"
+	"encoding/json"
+	"errors"
 	"fmt"
 	"hash/fnv"
+	"io"
 	"os"
 	"path/filepath"
 	"strings"
 	"sync"
+	"testing"
 	"time"
+
+	"google.golang.org/grpc/status"
+	"google.golang.org/protobuf/proto"
 
 	"github.com/containerd/nri/pkg/adaptation"
 	"github.com/containerd/nri/pkg/api"
@@ -209,8 +216,27 @@ type lcRuntime struct {
 // newLCRuntime creates and starts an adaptation; with preStop, Stop() is called on it
 // before its first Start().
 func newLCRuntime(preStop bool) (*lcRuntime, error) {
-	r := &lcRuntime{Dir: fx.ShortDir()}
+	return newLCRuntimeOpts(lcOpts{preStop: preStop})
+}
+
+// lcOpts: updateFn is installed before the first Start() (pre-installed plugins may update
+// as soon as they are configured); setup may populate <dir>/plugins before the first Start().
+type lcOpts struct {
+	preStop  bool
+	updateFn func(context.Context, []*api.ContainerUpdate) ([]*api.ContainerUpdate, error)
+	setup    func(dir string) error
+}
+
+func newLCRuntimeOpts(o lcOpts) (*lcRuntime, error) {
+	preStop := o.preStop
+	r := &lcRuntime{Dir: fx.ShortDir(), UpdateFn: o.updateFn}
 	r.Socket = filepath.Join(r.Dir, "nri.sock")
+	if o.setup != nil {
+		if err := o.setup(r.Dir); err != nil {
+			os.RemoveAll(r.Dir)
+			return nil, err
+		}
+	}
 	a, err := adaptation.New("verif", "0.0", r.sync, r.update,
 		adaptation.WithSocketPath(r.Socket),
 		adaptation.WithPluginPath(filepath.Join(r.Dir, "plugins")),
@@ -262,4 +288,162 @@ func (r *lcRuntime) Restart() error {
 func (r *lcRuntime) Stop() {
 	r.A.Stop()
 	os.RemoveAll(r.Dir)
+}
+
+// ---- pre-installed (runtime-launched) plugins -------------------------------------------
+//
+// The Adaptation launches every executable NN-name in its plugin path over a pre-connected
+// socket pair. The test binary plays that part itself: installed (hard-linked) into a plugin
+// path it finds NRI_PLUGIN_SOCKET in its environment and runs launchedMain instead of tests.
+// What it is to send lies next to the plugin path as <dir>/lp-<NN-name>.plan.json; it
+// reports what it got back in <dir>/lp-<NN-name>.result.json.
+
+func TestMain(m *testing.M) {
+	if os.Getenv(api.PluginSocketEnvVar) != "" && os.Getenv(api.PluginNameEnvVar) != "" {
+		launchedMain()
+		return
+	}
+	os.Exit(m.Run())
+}
+
+type lpCall struct {
+	Tag     string `json:"tag"`
+	DelayMs int    `json:"delay_ms,omitempty"`
+	Req     []byte `json:"req"` // marshalled api.UpdateContainersRequest
+}
+
+type lpPlan struct {
+	Calls []lpCall `json:"calls"`
+}
+
+type lpAnswer struct {
+	Tag       string `json:"tag"`
+	Failed    []byte `json:"failed"` // marshalled api.UpdateContainersResponse
+	Err       string `json:"err,omitempty"`
+	ErrMsg    string `json:"err_msg,omitempty"`
+	NoService bool   `json:"no_service,omitempty"`
+	Panic     string `json:"panic,omitempty"`
+}
+
+type lpResult struct {
+	StartErr string     `json:"start_err,omitempty"`
+	Answers  []lpAnswer `json:"answers"`
+}
+
+func lpPaths(dir, name string) (plan, result string) {
+	return filepath.Join(dir, "lp-"+name+".plan.json"), filepath.Join(dir, "lp-"+name+".result.json")
+}
+
+// installLaunched links the running test binary into <dir>/plugins as name and writes its plan.
+func installLaunched(dir, name string, plan lpPlan) error {
+	pdir := filepath.Join(dir, "plugins")
+	if err := os.MkdirAll(pdir, 0o755); err != nil {
+		return err
+	}
+	self, err := os.Executable()
+	if err != nil {
+		return err
+	}
+	dst := filepath.Join(pdir, name)
+	if err := os.Link(self, dst); err != nil { // a symlink would not do (the runtime uses Lstat)
+		in, err := os.Open(self)
+		if err != nil {
+			return err
+		}
+		defer in.Close()
+		out, err := os.OpenFile(dst, os.O_CREATE|os.O_WRONLY|os.O_TRUNC, 0o755)
+		if err != nil {
+			return err
+		}
+		if _, err := io.Copy(out, in); err != nil {
+			out.Close()
+			return err
+		}
+		if err := out.Close(); err != nil {
+			return err
+		}
+	}
+	b, err := json.Marshal(plan)
+	if err != nil {
+		return err
+	}
+	pp, _ := lpPaths(dir, name)
+	return os.WriteFile(pp, b, 0o644)
+}
+
+func launchedMain() {
+	// never outlive the case by much, whatever happens to the runtime
+	time.AfterFunc(3*time.Minute, func() { os.Exit(3) })
+	dir := filepath.Dir(filepath.Dir(os.Args[0]))
+	name := filepath.Base(os.Args[0])
+	pp, rp := lpPaths(dir, name)
+	var plan lpPlan
+	if b, err := os.ReadFile(pp); err != nil || json.Unmarshal(b, &plan) != nil {
+		os.Exit(4)
+	}
+	report := func(res lpResult) {
+		b, _ := json.Marshal(res)
+		if os.WriteFile(rp+".tmp", b, 0o644) == nil {
+			os.Rename(rp+".tmp", rp)
+		}
+	}
+	s, err := stub.New(&fx.Plugin{}, stub.WithOnClose(func() { os.Exit(0) }))
+	if err != nil {
+		report(lpResult{StartErr: "stub.New: " + err.Error()})
+		os.Exit(5)
+	}
+	if err := s.Start(context.Background()); err != nil {
+		report(lpResult{StartErr: err.Error()})
+		os.Exit(6)
+	}
+	var res lpResult
+	for _, c := range plan.Calls { // from the main goroutine, not from a handler
+		if c.DelayMs > 0 {
+			time.Sleep(time.Duration(c.DelayMs) * time.Millisecond)
+		}
+		a := lpAnswer{Tag: c.Tag}
+		var req api.UpdateContainersRequest
+		if err := proto.Unmarshal(c.Req, &req); err != nil {
+			a.Err = "plan: " + err.Error()
+			res.Answers = append(res.Answers, a)
+			continue
+		}
+		func() {
+			defer func() {
+				if p := recover(); p != nil {
+					a.Panic = fmt.Sprint(p)
+				}
+			}()
+			failed, err := s.UpdateContainers(req.Update)
+			a.Failed, _ = proto.Marshal(&api.UpdateContainersResponse{Failed: failed})
+			if err != nil {
+				a.Err = err.Error()
+				a.ErrMsg = status.Convert(err).Message()
+				a.NoService = errors.Is(err, stub.ErrNoService)
+			}
+		}()
+		res.Answers = append(res.Answers, a)
+	}
+	report(res)
+	s.Wait()
+	os.Exit(0)
+}
+
+// readLaunched waits for the report of a launched plugin.
+func readLaunched(dir, name string, timeout time.Duration) (*lpResult, error) {
+	_, rp := lpPaths(dir, name)
+	deadline := time.Now().Add(timeout)
+	for {
+		if b, err := os.ReadFile(rp); err == nil {
+			var res lpResult
+			if err := json.Unmarshal(b, &res); err != nil {
+				return nil, err
+			}
+			return &res, nil
+		}
+		if time.Now().After(deadline) {
+			return nil, fmt.Errorf("launched plugin %s did not report within %v", name, timeout)
+		}
+		time.Sleep(2 * time.Millisecond)
+	}
 }
